@@ -26,9 +26,13 @@
 #include "types.h"
 #include "meta.h"
 #include "values.h"
+#include "io.h"
 #include "vf.h"
 
 const char *vf_name = "c19_cxx";
+
+/* type id of a character vector (MPT_type_toVector('c'), the macro needs unqualified enumerators) */
+static const int VEC_CHAR = 'c' - mpt::_TypeScalarBase + mpt::_TypeVectorBase;
 
 /* objects built by the C part of the library have no C++ RTTI (see notes/C18.md) */
 extern "C" const char *__ubsan_default_options(void)
@@ -46,6 +50,7 @@ struct Elem {
 		char buf[80], hx[40];
 		if (type == 'd' && bytes.size() == 8) { double d; memcpy(&d, bytes.data(), 8); snprintf(buf, sizeof(buf), "%.17g", d); }
 		else if (type == 'f' && bytes.size() == 4) { float f; memcpy(&f, bytes.data(), 4); snprintf(buf, sizeof(buf), "%.9g", f); }
+		else if (type == (int) VEC_CHAR) snprintf(buf, sizeof(buf), "\"%.*s\"(%zu)", (int) (bytes.size() > 30 ? 30 : bytes.size()), (const char *) bytes.data(), bytes.size());
 		else snprintf(buf, sizeof(buf), "'%c' %s", type, vf_hex(hx, sizeof(hx), bytes.data(), bytes.size()));
 		return buf;
 	}
@@ -66,6 +71,14 @@ static bool read_elem(mpt::iterator &it, Elem &e, const char *what)
 	const mpt::value *v = it.value();
 	vf_count("iterator::value", 1);
 	if (!v) return false;
+	if ((int) v->type() == (int) VEC_CHAR) {
+		/* text element: span of characters (io::buffer) */
+		const mpt::span<const char> *sp = static_cast<const mpt::span<const char> *>(v->data());
+		VF_CHECK(sp && sp->size() >= 0 && (sp->begin() || !sp->size()), "cxx:value:type", "%s: character vector value without data", what);
+		e.type = v->type();
+		e.bytes.assign(reinterpret_cast<const uint8_t *>(sp->begin()), reinterpret_cast<const uint8_t *>(sp->begin()) + sp->size());
+		return true;
+	}
 	int sz = type_size(v->type());
 	VF_CHECK(sz > 0 && v->data(), "cxx:value:type", "%s: value() has type %d, data %p", what, (int) v->type(), v->data());
 	e.type = v->type();
@@ -291,6 +304,81 @@ static void case_c_iterator(vf_rng *r)
 	mt->unref();
 	vf_sample("%s", what);
 }
+
+/* ------------------------------------------- io::buffer argument iterator */
+/*
+ * mpt::io::buffer holds zero terminated text elements (written with
+ * write()); value() is the current element including its terminator,
+ * advance() steps over it - whether it was read before or not -, reset()
+ * returns to the first element, clone() of the metatype continues at the
+ * same element.
+ */
+static Elem text_elem(const std::string &w)
+{
+	Elem e;
+	e.type = VEC_CHAR;
+	e.bytes.assign(reinterpret_cast<const uint8_t *>(w.c_str()), reinterpret_cast<const uint8_t *>(w.c_str()) + w.size() + 1);
+	return e;
+}
+static void case_io_buffer(vf_rng *r)
+{
+	static const char *pool[] = { "", "a", "bc", "alpha", "gamma3", "dd", "e", "a much longer element than the others", "1.5", "x=1" };
+	int n = (int) vf_below(r, 9);
+	std::vector<std::string> words;
+	std::string desc = "io::buffer [";
+	Expect x;
+	x.known = true;
+	vf_fp_u64(0x10b);
+	mpt::io::buffer::metatype *m = mpt::io::buffer::metatype::create(0);
+	VF_CHECK(m != 0, "cxx:create:refused", "io::buffer::metatype::create(0) failed");
+	for (int i = 0; i < n; i++) {
+		std::string w = pool[vf_below(r, 10)];
+		words.push_back(w);
+		desc += (i ? ",\"" : "\"") + w + "\"";
+		x.seq.push_back(text_elem(w));
+		vf_fp(w.c_str(), w.size() + 1);
+		vf_at("io::buffer::write");
+		VF_CHECK(m->write(1, w.c_str(), w.size() + 1) == 1, "cxx:create:refused", "io::buffer::write of element %d failed", i);
+	}
+	desc += "]";
+	vf_log("%s", desc.c_str());
+	if (n >= 2) vf_nontrivial();
+	vf_count("io::buffer", 1);
+	mpt::iterator *it = m;
+	protocol(*it, desc.c_str(), x, 0, r, true);
+	/* clone at a position reached with and without reading the elements */
+	vf_at("iterator::reset");
+	it->reset();
+	int p = n ? (int) vf_below(r, (uint32_t) n + 1) : 0;
+	for (int i = 0; i < p; i++) {
+		if (vf_chance(r, 1, 2)) it->value();
+		int rr = it->advance();
+		VF_CHECK(i + 1 < n ? rr > 0 : rr == 0, "cxx:advance:result", "%s: advance() from position %d of %d returned %d", desc.c_str(), i, n, rr);
+	}
+	if (vf_chance(r, 1, 2)) it->value();
+	vf_at("metatype::clone");
+	mpt::io::buffer::metatype *c = m->clone();
+	vf_count("io::buffer::clone", 1);
+	if (c) {
+		mpt::iterator *ci = c;
+		for (int i = p; ; i++) {
+			Elem e;
+			bool have = read_elem(*ci, e, desc.c_str());
+			if (i >= n) { VF_CHECK(!have, "cxx:clone:sequence", "%s: clone taken at %d reads %s behind the end", desc.c_str(), p, e.show().c_str()); break; }
+			VF_CHECK(have && e == x.seq[i], "cxx:clone:sequence", "%s: clone taken at position %d reads %s as element %d, expected %s", desc.c_str(), p, have ? e.show().c_str() : "<none>", i, x.seq[i].show().c_str());
+			int rr = ci->advance();
+			VF_CHECK(i + 1 < n ? rr > 0 : rr == 0, "cxx:clone:advance", "%s: clone taken at %d: advance from element %d of %d returned %d", desc.c_str(), p, i, n, rr);
+			vf_count("monitor:clone-elements", 1);
+		}
+		c->unref();
+		/* the original is where it was */
+		Elem e;
+		bool have = read_elem(*it, e, desc.c_str());
+		VF_CHECK(p < n ? (have && e == x.seq[p]) : !have, "cxx:clone:disturbed-original", "%s: after cloning at %d the original reads %s", desc.c_str(), p, have ? e.show().c_str() : "<none>");
+	} else vf_count("clone:unsupported", 1);
+	m->unref();
+	vf_sample("%s", desc.c_str());
+}
 /* iterator that only supplies value(): the interface defaults report "no further element" */
 class single : public mpt::iterator
 {
@@ -315,12 +403,12 @@ static void case_default(vf_rng *r)
 	vf_sample("iterator with value() only: advance() = %d, reset() = %d", a, b);
 }
 
-static uint64_t n_cases() { return vf_thorough ? 2000000 : 150000; }
+static uint64_t n_cases() { return vf_thorough ? 2500000 : 200000; }
 extern "C" uint64_t vf_cases(void) { return n_cases(); }
 extern "C" void vf_case(uint64_t idx, vf_rng *r)
 {
 	(void) idx;
-	switch (vf_below(r, 14)) {
+	switch (vf_below(r, 17)) {
 	case 0: case 1: case_source<double>("double", 'd', r); break;
 	case 2: case_source<float>("float", 'f', r); break;
 	case 3: case_source<int32_t>("int32_t", 'i', r); break;
@@ -332,6 +420,7 @@ extern "C" void vf_case(uint64_t idx, vf_rng *r)
 	case 9: case_source<int64_t>("int64_t", 'x', r); break;
 	case 10: case_source<uint64_t>("uint64_t", 't', r); break;
 	case 11: case 12: case_c_iterator(r); break;
+	case 13: case 14: case 15: case_io_buffer(r); break;
 	default: case_default(r);
 	}
 }
